@@ -187,7 +187,28 @@ def aaveJHandlers : List (String × JHandler) := [
     let sup ← AaveJ.pairs j "supplies" AaveJ.supplyInfo
     let bor ← AaveJ.pairs j "borrows" AaveJ.borrowInfo
     let v ← AaveJ.view j
-    pure (Json.mkObj (AaveJ.resJ (specView cx env sup bor v))))
+    pure (Json.mkObj (AaveJ.resJ (specView cx env sup bor v)))),
+  ("aave_specall", fun j => do
+    let cx := AaveJ.actx j
+    let env ← AaveJ.env (← jObj j "env")
+    let sup ← AaveJ.pairs j "supplies" AaveJ.supplyInfo
+    let bor ← AaveJ.pairs j "borrows" AaveJ.borrowInfo
+    let toks ← jArr j "toks"
+    let toks ← toks.toList.mapM (fun t => match t with
+      | .str s => pure s
+      | _ => throw "toks: expected strings")
+    let one (v : View) : Json := Json.mkObj (AaveJ.resJ (specView cx env sup bor v))
+    let views0 : List (String × View) := [
+      ("suppliesValue", .suppliesValue), ("totalSupplyValue", .totalSupplyValue), ("collateralValue", .collateralValue),
+      ("totalCollateralValue", .totalCollateralValue), ("borrowsValue", .borrowsValue), ("totalBorrowsValue", .totalBorrowsValue),
+      ("supplies", .supplies), ("borrows", .borrows), ("liquidationThreshold", .liquidationThreshold), ("maxLtv", .maxLtv),
+      ("ltv", .ltv), ("healthFactor", .healthFactor), ("supplyApy", .supplyApy), ("borrowApy", .borrowApy),
+      ("totalApy", .totalApy), ("marketBalance", .marketBalance)]
+    pure (Json.mkObj (
+      views0.map (fun p => (p.1, one p.2)) ++
+      [("getSupply", Json.mkObj (toks.map (fun t => (t, one (.getSupply t))))),
+       ("getBorrow", Json.mkObj (toks.map (fun t => (t, one (.getBorrow t))))),
+       ("maxBorrowAmount", Json.mkObj (toks.map (fun t => (t, one (.maxBorrowAmount t)))))])))
 ]
 
 end Demeter.Drv
